@@ -17,7 +17,7 @@ from ..report import short
 from ..snapshot import snapshot, first_diff
 
 glom = env.bind()
-from glom import T, S, Fold, Sum, Flatten, Merge, flatten, merge, FoldError, GlomError, glom as G  # noqa: E402
+from glom import T, S, Fold, Sum, Flatten, Merge, flatten, merge, FoldError, GlomError, Path, Spec, Val, glom as G  # noqa: E402
 
 META = {
     'level': 'exploration',
@@ -470,6 +470,9 @@ def same_spec_object_on_iterable_then_not(col):
             col.violation('C15/non-iterable-not-FoldError:default', 'glom({a: 5}, %s, default=..): %r' % (name, got), None)
 
 
+_PCT = {}
+
+
 def non_iterables(col):
     class NoIter:
         def __repr__(self):
@@ -477,17 +480,26 @@ def non_iterables(col):
     targets = [5, None, 2.5, NoIter(), True]
     specs = [('Fold', lambda: Fold(T, init=int)), ('Sum', lambda: Sum()), ('Flatten', lambda: Flatten()),
              ('Flatten-lazy', lambda: Flatten(init='lazy')), ('Merge', lambda: Merge()),
-             ('Fold-sub', lambda: Fold('x', init=list)), ('Sum-sub', lambda: Sum(T['x']))]
+             ('Fold-sub', lambda: Fold('x', init=list)), ('Sum-sub', lambda: Sum(T['x'])),
+             # subspecs of every spec kind fetch the non-iterable value (chains of 0, 1, 2, 3 steps, dict / list results, Path, Spec)
+             ('Sum-chain2-sub', lambda: Sum(('x', T))), ('Sum-chain3-sub', lambda: Sum((T, 'x', T))), ('Sum-chain1-sub', lambda: Sum(('x',))),
+             ('Flatten-chain2-sub', lambda: Flatten(('x', T))), ('Merge-chain2-sub', lambda: Merge((T['x'], T))),
+             ('Fold-chain2-sub', lambda: Fold(('x', T), init=list)), ('Flatten-lazy-chain2-sub', lambda: Flatten(('x', T), init='lazy')),
+             ('Sum-path-sub', lambda: Sum(Path('x'))), ('Sum-spec-sub', lambda: Sum(Spec(('x', T)))),
+             ('Sum-callable-sub', lambda: Sum(lambda t: t['x'])), ('Sum-percent-in-path-sub', lambda: Sum(('x', T, Val(_PCT), 'k%s', T)))]
     for t in targets:
         for name, mk in specs:
             tt = {'x': t} if name.endswith('-sub') else t
+            if 'percent' in name:
+                _PCT['k%s'] = t
             got = call(G, tt, mk())
             col.case(('non-iterable', name, type(t).__name__), True)
             col.count('non_iterable_cases')
             if got.ok or not isinstance(got.exc, FoldError):
                 col.violation('C15/non-iterable-not-FoldError:' + name.split('-')[0],
                               'glom(%r, %s) gave %r, expected FoldError' % (tt, name, got), None)
-        for name, fn in [('flatten()', flatten), ('merge()', merge)]:
+        for name, fn in [('flatten()', flatten), ('merge()', merge), ('merge(spec=chain)', lambda v: merge({'x': v}, spec=('x', T))),
+                         ('flatten(spec=chain)', lambda v: flatten({'x': v}, spec=('x', T)))]:
             got = call(fn, t)
             col.case(('non-iterable', name, type(t).__name__), True)
             col.count('non_iterable_cases')
